@@ -1289,6 +1289,21 @@ fn run_case(ctx: &mut Ctx, m: &mut Model, stream: &str, mode: Mode, max: usize, 
                             json!({"stream": stream, "ops": trace.clone(), "target": code}),
                         );
                     }
+                    // the image of a DIFFERENT checkpoint came back: target resolution went wrong
+                    let other: Option<u64> = match oracle.get(n) {
+                        Some(then) if *then != now => {
+                            oracle.iter().find(|(i, img)| *i != n && **img == now && oracle.get(n) != Some(*img)).map(|p| *p.0)
+                        }
+                        _ => None,
+                    };
+                    if let Some(o) = other {
+                        violated = true;
+                        ctx.violation(
+                            "query_router.rollback/wrong_checkpoint_restored",
+                            &format!("ROLLBACK TO target code {code} must restore checkpoint number {n} (the newest listed one with that id or name) but the database now equals the image of checkpoint number {o}"),
+                            json!({"stream": stream, "ops": trace.clone(), "target": code, "expected": n, "restored": o}),
+                        );
+                    }
                     if let Some(then) = oracle.get(n) {
                         for (class, what) in diff_images(then, &now) {
                             violated = true;
